@@ -718,4 +718,14 @@ example : ∃ w : ProcStat, w.cpus.length = 2 ∧ (∀ l ∈ w.other, 10 ∉ l) 
 example : ∃ (t1 t2 : Sample) (i : Nat) (h1 : i < t1.length) (h2 : i < t2.length), t2[i] ≤ t1[i] :=
   ⟨[1, 5], [2, 3], 1, by decide, by decide, by norm_num⟩
 
+/-- proof obligation on the translator's fact (fix 73df480 landed): `Process.cpu_percent` remembers the
+    raw clock and scales the DIFFERENCE by the current CPU count; a return to `timer()*num_cpus`
+    breaks this theorem -/
+theorem cfg_proc_scale_delta : cfg.procScaleDelta = true := by decide
+
+/-- **C07_proc_percent_code.** The full statement (any sequence of CPU counts between calls) for the
+    code as it is now. -/
+theorem C07_proc_percent_code : C07_proc_percent_Full cfg :=
+  C07_proc_percent_fixed cfg cfg_good cfg_proc_scale_delta
+
 end Psutil.C07
